@@ -10,6 +10,9 @@
 (*   document items: "otherKind" (a kind the analysis does not use),       *)
 (*                   "badSchema" (fails schema conversion),                *)
 (*                   "fatal" (a conflicting policy -- control for clause 4)*)
+(*                   "nokindDoc" (a YAML document that is not a manifest,  *)
+(*                   inside a multi-document file: unreadable, but the     *)
+(*                   rest of the file is still read unless stop-on-error)  *)
 (*   file items:     "nonmanifest" (ignored extension),                    *)
 (*                   "broken" (syntactically broken YAML),                 *)
 (*                   "nokind" (YAML that is not a manifest).               *)
@@ -25,7 +28,7 @@ EXTENDS Integers, Sequences, FiniteSets, TLC, Json
 CONSTANTS MaxItems      \* number of injected items per scenario (0..MaxItems)
 
 Good == {"g1", "g2", "g3", "g4"}      \* the good documents (namespace, two workloads, one policy)
-DocItems == {"otherKind", "badSchema", "fatal"}
+DocItems == {"otherKind", "badSchema", "fatal", "nokindDoc"}
 FileItems == {"nonmanifest", "broken", "nokind"}
 
 (* templates: how the good documents are spread over files (lexical order) *)
@@ -48,7 +51,10 @@ Inject(S, n) == IF n = 0 THEN S ELSE S \cup Inject(UNION {Injections(fs) : fs \i
 
 Dirs == Inject({BaseFiles(t) : t \in Templates}, MaxItems)
 
-Scenarios == {[files |-> fs, stop |-> s, cmd |-> c] : fs \in Dirs, s \in BOOLEAN, c \in {"list", "diff1", "diff2"}}
+(* for diff the other directory is either clean or carries unreadable items of its own *)
+Scenarios == {[files |-> fs, stop |-> s, cmd |-> c, other |-> o] :
+                fs \in Dirs, s \in BOOLEAN, c \in {"list", "diff1", "diff2"}, o \in {"clean", "junk"}}
+Relevant(x) == x.cmd # "list" \/ x.other = "clean"
 
 ---------------------------------------------------------------------------
 VARIABLES scn,       \* the scenario (constant during a run)
@@ -60,7 +66,7 @@ VARIABLES scn,       \* the scenario (constant during a run)
           outcome    \* "" | "result" | "empty" | "error"
 vars == <<scn, phase, fi, di, objs, conflict, errs, outcome>>
 
-Init == /\ scn \in Scenarios
+Init == /\ scn \in {x \in Scenarios : Relevant(x)}
         /\ phase = "scan" /\ fi = 1 /\ di = 1 /\ objs = {} /\ conflict = FALSE /\ errs = {} /\ outcome = ""
 
 CurFile == scn.files[fi]
@@ -82,17 +88,24 @@ ScanFileAbort ==
 ConvertDoc ==
   /\ phase = "scan" /\ fi <= Len(scn.files) /\ CurFile.cls = "yaml" /\ di <= Len(CurFile.docs)
   /\ LET d == CurFile.docs[di]
-     IN /\ objs' = IF d \in Good THEN objs \cup {d} ELSE objs
-        /\ conflict' = (conflict \/ d = "fatal")
-        /\ errs' = IF d = "badSchema" THEN errs \cup {[sev |-> "severe", file |-> fi]} ELSE errs
-  /\ di' = di + 1 /\ UNCHANGED <<scn, phase, fi, outcome>>
+     IN IF d = "nokindDoc" /\ scn.stop
+        THEN \* an undecodable document: with stop-on-error the scan fails as a whole
+             /\ errs' = errs \cup {[sev |-> "severe", file |-> fi]}
+             /\ phase' = "done" /\ outcome' = "error" /\ UNCHANGED <<scn, fi, di, objs, conflict>>
+        ELSE /\ objs' = IF d \in Good THEN objs \cup {d} ELSE objs
+             /\ conflict' = (conflict \/ d = "fatal")
+             /\ errs' = IF d \in {"badSchema", "nokindDoc"} THEN errs \cup {[sev |-> "severe", file |-> fi]} ELSE errs
+             /\ di' = di + 1 /\ UNCHANGED <<scn, phase, fi, outcome>>
 
 NextFile == /\ phase = "scan" /\ fi <= Len(scn.files) /\ CurFile.cls = "yaml" /\ di > Len(CurFile.docs)
             /\ fi' = fi + 1 /\ di' = 1 /\ UNCHANGED <<scn, phase, objs, conflict, errs, outcome>>
 
 (* all documents converted: stop-on-error with a severe entry ends with an empty result *)
+OtherJunk == scn.cmd # "list" /\ scn.other = "junk"
 EndScan == /\ phase = "scan" /\ fi > Len(scn.files)
-           /\ IF scn.stop /\ Severe # {}
+           /\ IF scn.stop /\ OtherJunk
+              THEN phase' = "done" /\ outcome' = "error"       \* the scan of the other directory fails
+              ELSE IF scn.stop /\ Severe # {}
               THEN phase' = "done" /\ outcome' = "empty"
               ELSE phase' = "build" /\ outcome' = outcome
            /\ UNCHANGED <<scn, fi, di, objs, conflict, errs>>
@@ -112,7 +125,7 @@ Spec == Init /\ [][Next]_vars
 ---------------------------------------------------------------------------
 (* C13 as invariants of the terminal state *)
 SevereItemFiles == {f \in DOMAIN scn.files : scn.files[f].cls \in {"broken", "nokind"}
-                                             \/ \E p \in DOMAIN scn.files[f].docs : scn.files[f].docs[p] = "badSchema"}
+                                             \/ \E p \in DOMAIN scn.files[f].docs : scn.files[f].docs[p] \in {"badSchema", "nokindDoc"}}
 HasFatalItem == \E f \in DOMAIN scn.files : \E p \in DOMAIN scn.files[f].docs : scn.files[f].docs[p] = "fatal"
 
 (* 1. injected documents never change the computed connections: a result is computed from all good documents *)
@@ -121,13 +134,13 @@ NoSkew == (phase = "done" /\ outcome = "result") => objs = Good
       (unless the run was cut short by stop-on-error before reaching it) *)
 SevereReported == (phase = "done" /\ ~scn.stop) => \A f \in SevereItemFiles : [sev |-> "severe", file |-> f] \in errs
 (* 3. stop-on-error: a severe error yields no connections *)
-StopYieldsNoConnections == (phase = "done" /\ scn.stop /\ SevereItemFiles # {}) => outcome \in {"empty", "error"}
+StopYieldsNoConnections == (phase = "done" /\ scn.stop /\ (SevereItemFiles # {} \/ OtherJunk)) => outcome \in {"empty", "error"}
 (* 4. a fatal error always yields an error and no result *)
 FatalYieldsError == (phase = "done" /\ [sev |-> "fatal", file |-> 0] \in errs) => outcome = "error"
-FatalReached == (phase = "done" /\ HasFatalItem /\ ~(scn.stop /\ SevereItemFiles # {})) => outcome = "error"
+FatalReached == (phase = "done" /\ HasFatalItem /\ ~(scn.stop /\ (SevereItemFiles # {} \/ OtherJunk))) => outcome = "error"
 
 (* emission: once per terminal state *)
 Emit == phase = "done" =>
-          PrintT("CASE " \o ToJson([files |-> scn.files, stop |-> scn.stop, cmd |-> scn.cmd, predicted |-> outcome,
+          PrintT("CASE " \o ToJson([files |-> scn.files, stop |-> scn.stop, cmd |-> scn.cmd, other |-> scn.other, predicted |-> outcome,
                                     severeFiles |-> SevereItemFiles, fatal |-> HasFatalItem]))
 =============================================================================
